@@ -5,10 +5,8 @@ import FV.Model.Rpc
 namespace Driver
 open FV FV.Thrift FV.Rpc
 
-/-- `g3 <defs> <methodKey> <oneway> <args value> <outcome>` (see harness/gen/suites/c03.py). -/
-def stepRpc (op : String) (args : List String) : Option String :=
-  match op, args with
-  | "g3", [ds, key, ow, av, oc] => do
+/-- One modelled call rendered as the runner renders a real one; `q = some (wait, timeout)` runs `callQ`. -/
+def runRpcLine (ds key ow av oc : String) (q : Option (Nat × Nat)) : Option String := do
     let d ← parseThriftDefs ds
     let a ← parseThriftVal av
     let oneway := ow == "1"
@@ -25,7 +23,9 @@ def stepRpc (op : String) (args : List String) : Option String :=
       | ['e'] => some .otherError
       | 'a' :: r => (String.ofList r).toNat?.map .appException
       | _ => none
-    let obs := call d 64 key oneway a (fun _ => h)
+    let obs := match q with
+      | none => call d 64 key oneway a (fun _ => h)
+      | some (w, t) => callQ d 64 key oneway a (fun _ => h) w t
     let argsS := match obs.args with
       | some v => dumpV d 64 (.struct (key ++ "_args")) v
       | none => "-"
@@ -47,7 +47,19 @@ def stepRpc (op : String) (args : List String) : Option String :=
       | .app ty => s!"app {ty}"
       | .failed e => "err:" ++ errName e
       | .crashed => "crashed"
+      | .timedOut => "err:timeout"
     pure s!"calls={obs.calls} args={argsS} cid=ok result={res}"
+
+/-- `g3 <defs> <methodKey> <oneway> <args value> <outcome>` (see harness/gen/suites/c03.py);
+`g3q <defs> <methodKey> <oneway> <args value> <outcome> <wait ms> <timeout ms>`: the same call whose request
+waits `wait` at a busy server, issued with that FContext timeout (`FV.Rpc.callQ`). -/
+def stepRpc (op : String) (args : List String) : Option String :=
+  match op, args with
+  | "g3", [ds, key, ow, av, oc] => runRpcLine ds key ow av oc none
+  | "g3q", [ds, key, ow, av, oc, w, t] => do
+    let w ← w.toNat?
+    let t ← t.toNat?
+    runRpcLine ds key ow av oc (some (w, t))
   | _, _ => none
 
 end Driver
